@@ -155,3 +155,189 @@ Proof.
   - unfold m7, setlinks. rewrite mget_mset, Nat.eqb_refl. f_equal.
     unfold m6. mread. rewrite G5. auto.
 Qed.
+
+(** * __cstl_bintree_erase *)
+Lemma c_l_replace m root par old new d i :
+  n_c (mget (fst (l_replace m root par old new d)) i) = n_c (mget m i).
+Proof.
+  unfold l_replace. destruct par as [g|]; cbn [fst]; auto.
+  destruct (oeqb (Some old) (sel d (mget m g))); cbn [fst]; apply c_setsel.
+Qed.
+
+Lemma plug_snoc c f t : plug (c ++ [f]) t = plug1 f (plug c t).
+Proof. rewrite plug_app. reflexivity. Qed.
+
+Lemma l_bt_erase_sim m root c nc nl ne nr fuel :
+  let n := T nc nl ne nr in
+  let na := adr ne in
+  NoDup (addrs n ++ caddrs c) ->
+  rep m (ctx_par c) n -> crep m c (Some na) root -> (theight n <= fuel)%nat ->
+  let z := erase_zip nc nl ne nr in
+  let hole := hole_ctx z (z_y z) c in
+  exists m' root' ya,
+    l_bt_erase fuel m root na = Some (m', root', ya) /\
+    rep m' (ctx_par hole) (z_x z) /\ crep m' hole (raddr (z_x z)) root' /\
+    ya = (match z_y z with Some f => adr (fe f) | None => na end) /\
+    n_c (mget m' ya) = z_col z /\ n_c (mget m' na) = nc /\
+    (match n_l (mget m' na) with Some a => Some a | None => n_r (mget m' na) end) = raddr (z_x z) /\
+    n_p (mget m' na) = ctx_par hole /\
+    NoDup (addrs (z_x z) ++ caddrs hole) /\ ~ In na (addrs (z_x z) ++ caddrs hole) /\
+    (forall i, ~ In i (addrs n ++ caddrs c) -> mget m' i = mget m i).
+Proof.
+  intros n na Nd R C Hf z hole. subst n na.
+  pose proof R as R0. cbn [rep] in R. destruct R as (Np & Nc & Nl & Nr & Rl & Rr).
+  assert (Hcase : (nl = E \/ nr = E) \/ exists lk ll le lr rk rl ry rr, nl = T lk ll le lr /\ nr = T rk rl ry rr).
+  { destruct nl; auto. destruct nr; auto. right. do 8 eexists. split; reflexivity. }
+  destruct Hcase as [Hor|(lk & ll & le & lr & rk & rl & ry & rr & Enl & Enr)].
+  - (* at most one child: y = n *)
+    set (X := match nl with E => nr | _ => nl end).
+    assert (Ez : z = mkZ [] None X nc).
+    { unfold z, X, erase_zip. destruct nl; auto. destruct nr; auto. destruct Hor; discriminate. }
+    assert (Eh : hole = c) by (unfold hole; rewrite Ez; reflexivity).
+    rewrite Eh, Ez. cbn [z_x z_y z_col].
+    pose proof (l_splice_rep m root c nc nl ne nr Hor Nd R0 C) as HA. cbn zeta in HA.
+    destruct HA as (Ex & R2 & C2 & F2). fold X in Ex, R2, C2, F2.
+    destruct (l_replace _ _ _ _ _ _) as [m2 root2] eqn:E2. cbn [fst snd] in R2, C2, F2.
+    assert (Nx : raddr X <> Some (adr ne) /\ ctx_par c <> Some (adr ne)).
+    { pose proof Nd as Nd1. nd_norm. split.
+      - unfold X. destruct nl; apply raddr_notin; auto.
+      - destruct c as [|f c']; cbn [ctx_par]; [discriminate|]. nd_norm. congruence. }
+    destruct Nx as (Nx1 & Nx2).
+    assert (G2 : mget m2 (adr ne) = mget m (adr ne)) by (apply F2; auto).
+    exists m2, root2, (adr ne). splits; auto.
+    + unfold l_bt_erase.
+      replace (match n_l (mget m (adr ne)) with
+               | Some _ => match n_r (mget m (adr ne)) with
+                           | Some _ => l_adjacent fuel m Rt (adr ne)
+                           | None => Some (Some (adr ne))
+                           end
+               | None => Some (Some (adr ne))
+               end) with (Some (Some (adr ne))).
+      2:{ rewrite Nl, Nr. destruct Hor as [->| ->]; cbn [raddr]; auto. destruct (raddr nl); auto. }
+      cbn [bind]. rewrite E2, Nat.eqb_refl. reflexivity.
+    + rewrite G2. auto.
+    + rewrite G2. auto.
+    + rewrite G2. exact Ex.
+    + rewrite G2. auto.
+    + unfold X. clear - Nd. destruct nl; nd_norm; nd_solve.
+    + unfold X. clear - Nd. destruct nl; nd_norm; nd_solve.
+    + intros i Hi. apply F2.
+      * apply raddr_notin. intros Hx. apply Hi. apply in_or_app. left. rewrite addrs_T.
+        unfold X in Hx. destruct nl; [apply in_or_app; right; right; auto|].
+        apply in_or_app; left; auto.
+      * intros Hx. apply Hi. apply in_or_app. right. destruct c as [|f c']; [discriminate|].
+        cbn [ctx_par] in Hx. injection Hx as <-. rewrite caddrs_cons. left. reflexivity.
+  - (* two children: y = the leftmost node of the right subtree *)
+    subst nl nr. set (nl := T lk ll le lr) in *.
+    destruct (slide rk rl ry rr []) as [[[yc ye] yr] inner] eqn:Es.
+    assert (Ez : z = mkZ inner (Some (mkF Rt yc ye nl)) yr yc).
+    { unfold z, erase_zip, nl. rewrite Es. reflexivity. }
+    assert (Eh : hole = inner ++ mkF Rt yc ye nl :: c) by (unfold hole; rewrite Ez; reflexivity).
+    rewrite Eh, Ez. cbn [z_x z_y z_col fe].
+    set (fn := mkF Rt nc ne nl). set (fy := mkF Rt yc ye nl).
+    set (Y := T yc E ye yr). set (cy := inner ++ fn :: c).
+    pose proof (slide_plug _ _ _ _ _ _ _ _ _ Es) as Hnr. cbn [plug] in Hnr. fold Y in Hnr.
+    assert (HpY : plug (inner ++ [fn]) Y = T nc nl ne (T rk rl ry rr)).
+    { rewrite plug_snoc, Hnr. reflexivity. }
+    assert (Ecy : (inner ++ [fn]) ++ c = cy) by (unfold cy; rewrite <- app_assoc; reflexivity).
+    assert (HY : rep m (ctx_par cy) Y /\ crep m cy (Some (adr ye)) root).
+    { rewrite <- Ecy. apply (rep_plug_app m (inner ++ [fn]) c Y root). rewrite HpY. split; auto. }
+    destruct HY as (RY & CY).
+    assert (NdY : NoDup (addrs Y ++ caddrs cy)).
+    { rewrite <- Ecy. apply nd_plug. rewrite HpY. exact Nd. }
+    pose proof (l_splice_rep m root cy yc E ye yr (or_introl eq_refl) NdY RY CY) as HA. cbn zeta in HA.
+    destruct HA as (Ex & R2 & C2 & F2).
+    destruct (l_replace _ _ _ _ _ _) as [m2 root2] eqn:E2. cbn [fst snd] in R2, C2, F2.
+    (* the node of y and of n after phase 1 *)
+    assert (Hyn : adr ye <> adr ne /\ raddr yr <> Some (adr ye) /\ ctx_par cy <> Some (adr ye) /\
+                  raddr yr <> Some (adr ne)).
+    { pose proof NdY as Nd1. unfold Y, cy in Nd1. rewrite caddrs_app in Nd1. unfold fn in Nd1.
+      nd_norm. splits; auto.
+      - apply raddr_notin; auto.
+      - unfold cy. destruct inner as [|f0 inner']; cbn [app ctx_par fe fn]; [congruence|].
+        nd_norm. congruence.
+      - apply raddr_notin; auto. }
+    destruct Hyn as (Hyn & Hy1 & Hy2 & Hn1).
+    assert (GY : mget m2 (adr ye) = mget m (adr ye)) by (apply F2; auto).
+    assert (Ym : n_p (mget m (adr ye)) = ctx_par cy /\ n_c (mget m (adr ye)) = yc /\
+                 n_l (mget m (adr ye)) = None /\ n_r (mget m (adr ye)) = raddr yr).
+    { unfold Y in RY. cbn [rep raddr] in RY. tauto. }
+    destruct Ym as (Yp & Yc & Yl & Yr).
+    (* the tree with y removed, n still in place *)
+    set (NR := plug inner yr).
+    assert (Hp2 : plug (inner ++ [fn]) yr = T nc nl ne NR) by (rewrite plug_snoc; reflexivity).
+    assert (H2 : rep m2 (ctx_par c) (T nc nl ne NR) /\ crep m2 c (Some (adr ne)) root2).
+    { replace (Some (adr ne)) with (raddr (plug (inner ++ [fn]) yr)) by (rewrite Hp2; reflexivity).
+      rewrite <- Hp2. apply (rep_plug_app m2 (inner ++ [fn]) c yr root2). rewrite Ecy. split; auto. }
+    destruct H2 as (Rn2 & Cn2).
+    assert (Nd2 : NoDup (addrs (T nc nl ne NR) ++ caddrs c) /\
+                  ~ In (adr ye) (addrs (T nc nl ne NR) ++ caddrs c)).
+    { rewrite <- Hp2. split.
+      - apply nd_plug. rewrite Ecy. unfold Y in NdY. clear - NdY. nd_norm. nd_solve.
+      - rewrite in_plug, Ecy. unfold Y in NdY. clear - NdY. nd_norm. nd_solve. }
+    destruct Nd2 as (Nd2 & Ny2).
+    set (t := mget m2 (adr ye)).
+    pose proof (l_swapin_rep m2 root2 c nc nl ne NR ye t Nd2 Ny2 Rn2 Cn2) as HB. cbn zeta in HB.
+    destruct (l_replace m2 root2 (n_p (mget m2 (adr ne))) (adr ne) (Some (adr ye)) Lf) as [m3 root3] eqn:E3.
+    cbn [fst snd] in HB.
+    set (m4 := setp_opt m3 (n_l (mget m3 (adr ne))) (Some (adr ye))) in *.
+    set (m5 := setp_opt m4 (n_r (mget m4 (adr ne))) (Some (adr ye))) in *.
+    set (m6 := setlinks m5 (adr ye) (mget m5 (adr ne))) in *.
+    set (m7 := setlinks m6 (adr ne) t) in *.
+    set (m8 := if oeqb (n_p (mget m7 (adr ne))) (Some (adr ne)) then setp m7 (adr ne) (Some (adr ye)) else m7).
+    assert (H8 : forall i, i <> adr ne -> mget m8 i = mget m7 i).
+    { intros i Hi. unfold m8. destruct (oeqb _ _); auto. apply mget_setp_o. auto. }
+    destruct (HB m8 H8) as (R8 & C8 & F8 & N7). clear HB.
+    assert (Et : t = mget m (adr ye)) by exact GY.
+    rewrite Et, Yp, Yl, Yr in N7. rewrite GY, Yc in R8.
+    assert (N8 : n_c (mget m8 (adr ne)) = nc /\ n_l (mget m8 (adr ne)) = None /\
+                 n_r (mget m8 (adr ne)) = raddr yr /\
+                 n_p (mget m8 (adr ne)) = ctx_par (inner ++ fy :: c)).
+    { unfold m8. rewrite N7. cbn [n_p].
+      destruct inner as [|f0 inner'].
+      - cbn [app ctx_par cy fn fe fy]. rewrite oeqb_refl. mread. rewrite N7. cbn. auto.
+      - assert (Hne : oeqb (ctx_par cy) (Some (adr ne)) = false).
+        { apply oeqb_neq. unfold cy. cbn [app ctx_par].
+          pose proof NdY as Nd1. unfold cy in Nd1. cbn [app] in Nd1. rewrite caddrs_cons, caddrs_app in Nd1.
+          unfold fn in Nd1. nd_norm. congruence. }
+        rewrite Hne, N7. cbn. auto. }
+    destruct N8 as (N8c & N8l & N8r & N8p).
+    assert (Hp8 : plug (inner ++ [fy]) yr = T yc nl ye NR) by (rewrite plug_snoc; reflexivity).
+    assert (Ehole : (inner ++ [fy]) ++ c = inner ++ fy :: c) by (rewrite <- app_assoc; reflexivity).
+    assert (H8' : rep m8 (ctx_par (inner ++ fy :: c)) yr /\ crep m8 (inner ++ fy :: c) (raddr yr) root3).
+    { rewrite <- Ehole. apply (rep_plug_app m8 (inner ++ [fy]) c yr root3). rewrite Hp8. cbn [raddr]. auto. }
+    destruct H8' as (Rh & Ch).
+    exists m8, root3, (adr ye). splits; auto.
+    + unfold l_bt_erase. rewrite Nl, Nr. cbn [raddr bind].
+      unfold l_adjacent. cbn [sel]. rewrite Nr. cbn [raddr opp].
+      rewrite (l_slide_rep m rl rk ry rr [fn] fuel yc ye yr (inner ++ [fn])); cycle 1.
+      { exact Rr. }
+      { cbn [theight] in Hf. lia. }
+      { rewrite slide_app, Es. reflexivity. }
+      change (raddr nl) with (Some (adr le)).
+      cbn [bind]. cbv zeta. rewrite E2. rewrite (eqb_false _ _ Hyn).
+      fold t. rewrite E3. reflexivity.
+    + rewrite H8 by auto. unfold m7, m6. mread.
+      unfold m5, m4. mread.
+      assert (G3 : n_c (mget m3 (adr ye)) = n_c (mget m2 (adr ye))).
+      { replace m3 with (fst (l_replace m2 root2 (n_p (mget m2 (adr ne))) (adr ne) (Some (adr ye)) Lf))
+          by (rewrite E3; reflexivity).
+        apply c_l_replace. }
+      rewrite G3, GY. exact Yc.
+    + rewrite N8l. exact N8r.
+    + rewrite <- Ehole. apply nd_plug. rewrite Hp8.
+      clear - Nd2 Ny2. nd_norm. nd_solve.
+    + rewrite <- Ehole. rewrite <- in_plug. rewrite Hp8.
+      clear - Nd2 Ny2 Hyn. nd_norm. nd_solve.
+    + intros i Hi.
+      assert (Hi' : ~ In i (addrs Y ++ caddrs cy)).
+      { rewrite <- Ecy, <- in_plug, HpY. exact Hi. }
+      assert (Hi2 : ~ In i (addrs (T nc nl ne NR) ++ caddrs c) /\ i <> adr ye /\ i <> adr ne).
+      { rewrite <- Hp2, in_plug, Ecy. unfold Y in Hi'. clear - Hi' Hi. nd_norm. splits; auto. nd_solve. }
+      destruct Hi2 as (Hi2 & Hi3 & Hi4).
+      rewrite F8 by auto. apply F2.
+      * apply raddr_notin. unfold Y in Hi'. clear - Hi'. nd_norm. auto.
+      * intros Hx. apply Hi'. apply in_or_app. right. unfold cy in *.
+        destruct inner as [|f0 inner']; cbn [app ctx_par] in Hx; injection Hx as <-;
+          cbn [app]; rewrite caddrs_cons; left; reflexivity.
+Qed.
